@@ -141,4 +141,157 @@ func Grow
   ensures[prefix] forall k :: 0 <= k && k < len(slice) ==> result[k] == old(slice[k])
   ensures[zeros]  forall k :: len(slice) <= k && k < len(result) ==> result[k] == zero(E)
   assigns elems(slice, len(slice), len(slice) + n)
+
+// ---------------------------------------------------------------- C14
+// Callbacks are pure uninterpreted functions; each reference definition is a
+// spec function given by its recursion equations over the prefix length.
+
+spec foldl(acc func, seed State, s []E, k int) typeof(seed)
+axiom foldl_zero(acc, seed, s): ident(foldl(acc, seed, s, 0), seed)
+axiom foldl_step(acc, seed, s, k): k >= 0 ==> ident(foldl(acc, seed, s, k+1), acc(foldl(acc, seed, s, k), s[k]))
+
+// foldr(..., k): the state after the last k elements have been folded in, last element first
+spec foldr(acc func, seed State, s []E, k int) typeof(seed)
+axiom foldr_zero(acc, seed, s): ident(foldr(acc, seed, s, 0), seed)
+axiom foldr_step(acc, seed, s, k): k >= 0 ==> ident(foldr(acc, seed, s, k+1), acc(foldr(acc, seed, s, k), s[len(s)-1-k]))
+
+func Fold
+  property C14
+  ensures[fold] ident(result, foldl(acc, seed, slice, len(slice)))
+  loop 0 use foldl_zero(acc, param(seed), slice)
+  loop 0 use foldl_step(acc, param(seed), slice, rangeindex + 1)
+  loop 0 invariant -1 <= rangeindex && rangeindex < len(slice) && ident(state, foldl(acc, param(seed), slice, rangeindex + 1))
+
+func FoldReverse
+  property C14
+  ensures[fold] ident(result, foldr(acc, seed, slice, len(slice)))
+  loop 0 use foldr_zero(acc, param(seed), slice)
+  loop 0 use foldr_step(acc, param(seed), slice, len(slice) - 1 - i)
+  loop 0 invariant -1 <= i && i < len(slice) && ident(state, foldr(acc, param(seed), slice, len(slice) - 1 - i))
+
+func Map
+  property C14
+  ensures[len]   len(result) == len(slice)
+  ensures[elems] forall k :: 0 <= k && k < len(slice) ==> result[k] == conv(slice[k])
+  ensures[fresh] fresh(result)
+  loop 0 invariant -1 <= rangeindex && rangeindex < len(slice) && fresh(result)
+  loop 0 invariant forall k :: 0 <= k && k <= rangeindex ==> result[k] == conv(slice[k])
+
+func MapErr
+  property C14
+  ensures[ok]    (forall k :: 0 <= k && k < len(slice) ==> nth(conv(slice[k]), 1) == nil) ==> result1 == nil && len(result0) == len(slice) && fresh(result0) && (forall k :: 0 <= k && k < len(slice) ==> result0[k] == nth(conv(slice[k]), 0))
+  ensures[fail]  forall e :: 0 <= e && e < len(slice) && nth(conv(slice[e]), 1) != nil && (forall j :: 0 <= j && j < e ==> nth(conv(slice[j]), 1) == nil) ==> result0 == nil && result1 == nth(conv(slice[e]), 1) && loglen(conv) == e + 1
+  loop 0 invariant -1 <= rangeindex && rangeindex < len(slice) && fresh(result) && loglen(conv) == rangeindex + 1
+  loop 0 invariant forall k :: 0 <= k && k <= rangeindex ==> result[k] == nth(conv(slice[k]), 0) && nth(conv(slice[k]), 1) == nil
+
+// the order-preserving subsequence of s[0:k] selected by predicate p: its length and its j-th element
+spec flen(p func, s []E, k int) int
+spec fat(p func, s []E, k int, j int) elem(s)
+axiom flen_zero(p, s): flen(p, s, 0) == 0
+axiom flen_step(p, s, k): k >= 0 ==> flen(p, s, k+1) == flen(p, s, k) + b2i(p(s[k]))
+axiom fat_step(p, s, k, j): k >= 0 ==> ident(fat(p, s, k+1, j), ite(j < flen(p, s, k), fat(p, s, k, j), s[k]))
+
+func Filter
+  property C14
+  ensures[len]   len(result) == flen(match, slice, len(slice))
+  ensures[elems] forall j :: 0 <= j && j < len(result) ==> result[j] == fat(match, slice, len(slice), j)
+  ensures[fresh] fresh(result)
+  loop 0 use flen_zero(match, slice)
+  loop 0 use flen_step(match, slice, rangeindex + 1)
+  loop 0 use forall j :: {fat(match, slice, rangeindex + 2, j)} fat_step(match, slice, rangeindex + 1, j)
+  loop 0 invariant -1 <= rangeindex && rangeindex < len(slice) && fresh(result)
+  loop 0 invariant len(result) == flen(match, slice, rangeindex + 1)
+  loop 0 invariant forall j :: 0 <= j && j < len(result) ==> result[j] == fat(match, slice, rangeindex + 1, j)
+
+func Any
+  property C14
+  ensures[def] result == (exists k :: 0 <= k && k < len(slice) && cond(slice[k]))
+  loop 0 invariant -1 <= rangeindex && rangeindex < len(slice)
+  loop 0 invariant forall k :: 0 <= k && k <= rangeindex ==> !cond(slice[k])
+
+func All
+  property C14
+  ensures[def] result == (forall k :: 0 <= k && k < len(slice) ==> cond(slice[k]))
+  loop 0 invariant -1 <= rangeindex && rangeindex < len(slice)
+  loop 0 invariant forall k :: 0 <= k && k <= rangeindex ==> cond(slice[k])
+
+func Index
+  property C14
+  ensures[found]  result != -1 ==> 0 <= result && result < len(slice) && slice[result] == value && (forall k :: 0 <= k && k < result ==> slice[k] != value)
+  ensures[absent] result == -1 ==> (forall k :: 0 <= k && k < len(slice) ==> slice[k] != value)
+  loop 0 invariant -1 <= rangeindex && rangeindex < len(slice)
+  loop 0 invariant forall k :: 0 <= k && k <= rangeindex ==> slice[k] != value
+
+func IndexFunc
+  property C14
+  ensures[found]  result != -1 ==> 0 <= result && result < len(slice) && f(slice[result]) && (forall k :: 0 <= k && k < result ==> !f(slice[k]))
+  ensures[absent] result == -1 ==> (forall k :: 0 <= k && k < len(slice) ==> !f(slice[k]))
+  loop 0 invariant -1 <= rangeindex && rangeindex < len(slice)
+  loop 0 invariant forall k :: 0 <= k && k <= rangeindex ==> !f(slice[k])
+
+spec memberOf(u []E, x E) bool = exists m :: 0 <= m && m < len(u) && u[m] == x
+
+func Contains
+  property C14
+  ensures[def] result == memberOf(slice, value)
+  loop 0 invariant -1 <= rangeindex && rangeindex < len(slice)
+  loop 0 invariant forall k :: 0 <= k && k <= rangeindex ==> slice[k] != value
+
+func ContainsFunc
+  property C14
+  ensures[def] result == (exists k :: 0 <= k && k < len(slice) && equals(slice[k], value))
+  loop 0 invariant -1 <= rangeindex && rangeindex < len(slice)
+  loop 0 invariant forall k :: 0 <= k && k <= rangeindex ==> !equals(slice[k], value)
+
+func TryGet
+  property C14
+  ensures[in]  0 <= index && index < len(slice) ==> result1 && result0 == slice[index]
+  ensures[out] !(0 <= index && index < len(slice)) ==> !result1 && result0 == zero(E)
+
+func SafeGet
+  property C14
+  ensures[in]  0 <= index && index < len(slice) ==> result == slice[index]
+  ensures[out] !(0 <= index && index < len(slice)) ==> result == zero(E)
+
+func SafeGetOr
+  property C14
+  ensures[in]  0 <= index && index < len(slice) ==> result == slice[index]
+  ensures[out] !(0 <= index && index < len(slice)) ==> result == fallback
+
+func Last
+  property C14
+  panics_iff len(slice) == 0
+  ensures[last] result == slice[len(slice) - 1]
+
+func TrimLeft
+  property C14
+  ensures[sub]     base(result) == base(slice) && off(result) >= off(slice) && off(result) + len(result) == off(slice) + len(slice)
+  ensures[trimmed] forall k :: 0 <= k && k < off(result) - off(slice) ==> memberOf(unwanted, slice[k])
+  ensures[stop]    len(result) > 0 ==> !memberOf(unwanted, result[0])
+  loop 0 invariant base(slice) == base(param(slice)) && off(slice) >= off(param(slice)) && off(slice) + len(slice) == off(param(slice)) + len(param(slice)) && len(slice) >= 0
+  loop 0 invariant forall k :: 0 <= k && k < off(slice) - off(param(slice)) ==> memberOf(unwanted, param(slice)[k])
+
+func TrimRight
+  property C14
+  ensures[sub]     base(result) == base(slice) && off(result) == off(slice) && 0 <= len(result) && len(result) <= len(slice)
+  ensures[trimmed] forall k :: len(result) <= k && k < len(slice) ==> memberOf(unwanted, slice[k])
+  ensures[stop]    len(result) > 0 ==> !memberOf(unwanted, result[len(result) - 1])
+  loop 0 invariant base(slice) == base(param(slice)) && off(slice) == off(param(slice)) && 0 <= len(slice) && len(slice) <= len(param(slice))
+  loop 0 invariant forall k :: len(slice) <= k && k < len(param(slice)) ==> memberOf(unwanted, param(slice)[k])
+
+func TrimLeftFunc
+  property C14
+  ensures[sub]     base(result) == base(slice) && off(result) >= off(slice) && off(result) + len(result) == off(slice) + len(slice)
+  ensures[trimmed] forall k :: 0 <= k && k < off(result) - off(slice) ==> unwanted(slice[k])
+  ensures[stop]    len(result) > 0 ==> !unwanted(result[0])
+  loop 0 invariant base(slice) == base(param(slice)) && off(slice) >= off(param(slice)) && off(slice) + len(slice) == off(param(slice)) + len(param(slice)) && len(slice) >= 0
+  loop 0 invariant forall k :: 0 <= k && k < off(slice) - off(param(slice)) ==> unwanted(param(slice)[k])
+
+func TrimRightFunc
+  property C14
+  ensures[sub]     base(result) == base(slice) && off(result) == off(slice) && 0 <= len(result) && len(result) <= len(slice)
+  ensures[trimmed] forall k :: len(result) <= k && k < len(slice) ==> unwanted(slice[k])
+  ensures[stop]    len(result) > 0 ==> !unwanted(result[len(result) - 1])
+  loop 0 invariant base(slice) == base(param(slice)) && off(slice) == off(param(slice)) && 0 <= len(slice) && len(slice) <= len(param(slice))
+  loop 0 invariant forall k :: len(slice) <= k && k < len(param(slice)) ==> unwanted(param(slice)[k])
 @*/
